@@ -632,7 +632,9 @@ func (t *Typechecker) VisitGrouping(expr *ast.Grouping) ast.VisitResult {
 func (t *Typechecker) VisitFuncCall(callExpr *ast.FuncCall) ast.VisitResult {
 	decl := callExpr.Func
 
-	for k, expr := range callExpr.Args {
+	// visit the arguments in source order, so that the reported errors don't depend on the map order
+	for _, k := range ast.SortedArgNames(callExpr.Args) {
+		expr := callExpr.Args[k]
 		argType := t.Evaluate(expr)
 
 		var paramType ddptypes.ParameterType
@@ -668,7 +670,9 @@ func (t *Typechecker) VisitFuncCall(callExpr *ast.FuncCall) ast.VisitResult {
 }
 
 func (t *Typechecker) VisitStructLiteral(expr *ast.StructLiteral) ast.VisitResult {
-	for argName, arg := range expr.Args {
+	// visit the arguments in source order, so that the reported errors don't depend on the map order
+	for _, argName := range ast.SortedArgNames(expr.Args) {
+		arg := expr.Args[argName]
 		argType := t.Evaluate(arg)
 
 		var paramType ddptypes.Type
